@@ -47,3 +47,21 @@ Theorem C09_perm_roundtrip : forall m, wf_udata m ->
   match decode_data (encode_data m) with Ok m' => permissions m' = permissions m | _ => False end.
 Proof. intros m Hw. rewrite decode_encode by exact Hw. apply perm_roundtrip. Qed.
 Print Assumptions C09_perm_roundtrip.
+
+(* ---- non-minimal varints ---- *)
+From UV Require Import Base.Varint Base.VarintProofs.
+Local Open Scope N_scope.
+
+(* a conformant encoder may pad a varint with continuation bytes: the n-byte form of v (1 <= n <= 10).  ConsumeVarint,
+   through which the decoders read every tag, length and integer field, returns v for every such form, whatever follows;
+   the minimal form AppendVarint writes is one of them *)
+Theorem C09_padded_varints_decode : forall (n : nat) (v : N) (r : bytes),
+  (1 <= n <= 10)%nat -> v < 2 ^ (7 * N.of_nat n) -> v < 2 ^ 64 -> dec_varint (enc_varint_n n v ++ r) = Some (v, r).
+Proof. exact dec_padded_varint. Qed.
+Print Assumptions C09_padded_varints_decode.
+
+Theorem C09_padded_varint_example :
+  enc_varint_n 3 300 = [172; 130; 0] /\ enc_varint 300 = [172; 2] /\ dec_varint ([172; 130; 0] ++ [7]) = Some (300, [7])
+  /\ dec_varint (enc_varint_n 10 18446744073709551615) = Some (18446744073709551615, []).
+Proof. exact padded_varint_example. Qed.
+Print Assumptions C09_padded_varint_example.
